@@ -45,6 +45,7 @@ type simPolicy struct {
 	ReplyEtypeLo bool                // pick the LAST mutually supported etype of the client's list instead of the first
 	AddrLess     bool                // never put addresses into tickets
 	Referrals    map[string][]string // spn -> chain of realms to refer through before the final realm issues the ticket
+	SaltInReply  bool                // AS replies carry PA-ETYPE-INFO2 with the principal's salt whatever the pre-authentication policy
 }
 
 // perturbation of the next reply of a kind (C09)
@@ -551,7 +552,7 @@ func (k *simKDC) handleAS(as messages.ASReq, transport string) []byte {
 		rec.Answer = "krberror"
 		return errb
 	}
-	if k.policy.Preauth {
+	if k.policy.Preauth || k.policy.SaltInReply {
 		// salt information may also accompany the reply
 		e2, _ := asn1.Marshal([]etypeInfo2Entry{{EType: ckey.KeyType, Salt: cp.salt}})
 		rp.padata = types.PADataSequence{{PADataType: patype.PA_ETYPE_INFO2, PADataValue: e2}}
